@@ -16,3 +16,12 @@ package codegen
 //@   property C09
 //@   ensures* user.owned.file: result != nil ==> result.SkipExist
 //@   modifies all
+
+// "Gives every attribute the field number chosen in the design": the number written into the message
+// definition is the number design validation checked for uniqueness -- the value FieldTag reports (the last
+// rpc:tag), parsed as a decimal number.
+//@ func rpcTag
+//@   params a
+//@   property C10
+//@   ensures* the.validated.number: a != nil && inMap(a.Meta, "rpc:tag") && len(a.Meta["rpc:tag"]) >= 1 ==> result == parseUintSpec(a.Meta["rpc:tag"][len(a.Meta["rpc:tag"]) - 1])
+//@   modifies nothing
